@@ -25,7 +25,7 @@ O_ACYC_OVL = gramgen.Opts(terms='ovl', max_rules=3, shaping=True, ignore=True, a
 # regexp terminals with several match lengths (ambiguity *inside* terminals under dynamic_complete), restricted to regexps for
 # which the listed C01 deviations cannot occur; ignored terminals are single fixed strings
 O_ACYC_RE = gramgen.Opts(terms='re', max_rules=3, shaping=True, ignore=True, acyclic=True, re_safe=True, ignore_kinds='tok')
-O_ANY = gramgen.Opts(terms='tok', max_rules=3, shaping=True, templates=True, ignore=True, acyclic=False, max_alts=3, max_items=3, depth=1)
+O_ANY = gramgen.Opts(terms='tok', max_rules=3, shaping=True, templates=True, ignore=True, acyclic=False, max_alts=2, max_items=2, depth=1)
 MODE = {'basic': 'exact', 'dynamic': 'longest', 'dynamic_complete': 'exact'}
 
 
@@ -36,14 +36,21 @@ def lib_collapse(t, named):
     return out
 
 
-def count_expansions(t, cap=10**7):
+def count_expansions(t, cap=10**7, _memo=None):
+    """number of trees a normalised result denotes (dynamic programming over shared sub-trees)"""
     if t is None or t[0] != 'N': return 1
+    if _memo is None: _memo = {}
+    got = _memo.get(id(t))
+    if got is not None: return got
     if t[1] == '_ambig':
-        return min(cap, sum(count_expansions(c, cap) for c in t[2]))
-    n = 1
-    for c in t[2]:
-        n *= count_expansions(c, cap)
-        if n > cap: return cap
+        n = min(cap, sum(count_expansions(c, cap, _memo) for c in t[2]))
+    else:
+        n = 1
+        for c in t[2]:
+            n *= count_expansions(c, cap, _memo)
+            if n > cap:
+                n = cap; break
+    _memo[id(t)] = n
     return n
 
 
@@ -163,4 +170,4 @@ def phases(tier):
     return [Phase('acyclic-tok', 'hypothesis', strategy=strat(O_ACYC, 'tok', 3, 8), max_examples=32000 * k),
             Phase('acyclic-ovl', 'hypothesis', strategy=strat(O_ACYC_OVL, 'ovl', 3, 8), max_examples=16000 * k),
             Phase('acyclic-re-dynamic-complete', 'hypothesis', strategy=strat(O_ACYC_RE, 're', 3, 7), max_examples=12000 * k),
-            Phase('any-tok', 'hypothesis', strategy=strat(O_ANY, 'tok', 3, 4), max_examples=16000 * k)]
+            Phase('any-tok', 'hypothesis', strategy=strat(O_ANY, 'tok', 3, 3), max_examples=16000 * k)]
